@@ -40,6 +40,8 @@ func checkC04(ctx *Ctx, r *Report) {
 	like := c04Recursion(ctx, r, g)
 	c04RefLoops(ctx, r, like)
 	c04Worklists(ctx, r, g)
+	c04VisitedProtocol(ctx, r, g)
+	c04Fixpoints(ctx, r)
 	c04Panics(ctx, r, g)
 	c04Assertions(ctx, r)
 	c04Lookups(ctx, r)
@@ -50,6 +52,7 @@ func checkC04(ctx *Ctx, r *Report) {
 	c04EnumMemberScalar(ctx, r)
 	c04ConstantIndexes(ctx, r, eng)
 	c04NonEmptyInvariants(ctx, r)
+	c04PathInvariant(ctx, r)
 	c04NilGuardedMembers(ctx, r, eng)
 	cfgNilEntries(ctx, r)
 }
@@ -1785,4 +1788,287 @@ func c04Worklists(ctx *Ctx, r *Report, g *callGraph) {
 	}
 	r.Count("worklist loops", n)
 	r.Floor("worklist loops", 1)
+}
+
+// c04VisitedProtocol: a function of a recursive component that starts by leaving when its argument is already in a set
+// (`if seen[k] { return }`, `if objects.Has(name) { return }`) records the argument in that set in the same block,
+// unconditionally, before it calls back into the component. An insertion made under a further condition lets the
+// excluded shapes recurse forever.
+func c04VisitedProtocol(ctx *Ctx, r *Report, g *callGraph) {
+	// wrappers that insert into a field: func -> field
+	wrapper := map[*types.Func]*types.Var{}
+	for fn, node := range g.nodes {
+		if len(node.decl.Body.List) != 1 {
+			continue
+		}
+		es, ok := node.decl.Body.List[0].(*ast.ExprStmt)
+		if !ok {
+			continue
+		}
+		if c, ok := es.X.(*ast.CallExpr); ok {
+			if sel, ok := c.Fun.(*ast.SelectorExpr); ok && sel.Sel.Name == "Set" {
+				if f := fieldOf(node.pkg.TypesInfo, sel.X); f != nil {
+					wrapper[fn] = f
+				}
+			}
+		}
+	}
+	n := 0
+	for _, comp := range g.sccs() {
+		member := map[*types.Func]bool{}
+		for _, f := range comp {
+			member[f] = true
+		}
+		for _, fn := range comp {
+			node := g.nodes[fn]
+			info := node.pkg.TypesInfo
+			parents := parentMap(node.decl)
+			// identity of a container expression: field object or local object
+			ident := func(e ast.Expr) any {
+				if f := fieldOf(info, e); f != nil {
+					return f
+				}
+				if id, ok := ast.Unparen(e).(*ast.Ident); ok {
+					return objOf(info, id)
+				}
+				return nil
+			}
+			ast.Inspect(node.decl.Body, func(m ast.Node) bool {
+				guard, ok := m.(*ast.IfStmt)
+				if !ok || !endsInExit(guard.Body) || guard.Else != nil {
+					return true
+				}
+				var container any
+				var containerExpr ast.Expr
+				probe := func(e ast.Node) {
+					ast.Inspect(e, func(k ast.Node) bool {
+						switch x := k.(type) {
+						case *ast.IndexExpr:
+							if _, isMap := info.TypeOf(x.X).Underlying().(*types.Map); isMap {
+								container, containerExpr = ident(x.X), x.X
+							}
+						case *ast.CallExpr:
+							if f := callee(info, x); f != nil && f.Name() == "Has" {
+								if sel, ok := x.Fun.(*ast.SelectorExpr); ok {
+									container, containerExpr = ident(sel.X), sel.X
+								}
+							}
+						}
+						return true
+					})
+				}
+				// only positive membership: `if seen[k]`, `if _, found := m[k]; found`, `if x.Has(k)`
+				if u, ok := ast.Unparen(guard.Cond).(*ast.UnaryExpr); ok && u.Op == token.NOT {
+					return true
+				}
+				probe(guard.Cond)
+				if guard.Init != nil {
+					probe(guard.Init)
+				}
+				if container == nil {
+					return true
+				}
+				// `if v, found := table[k]; found { return v }` looks a value up (a translation table, a memo), it does not
+				// record visits
+				if as, ok := guard.Init.(*ast.AssignStmt); ok && len(as.Lhs) == 2 {
+					if vid, ok := as.Lhs[0].(*ast.Ident); ok && vid.Name != "_" {
+						usesValue := false
+						ast.Inspect(guard.Body, func(k ast.Node) bool {
+							if id, ok := k.(*ast.Ident); ok && info.Uses[id] == info.Defs[vid] {
+								usesValue = true
+							}
+							return true
+						})
+						if usesValue {
+							return true
+						}
+					}
+				}
+				blk, ok := parents[ast.Node(guard)].(*ast.BlockStmt)
+				if !ok {
+					return true
+				}
+				// insertions into the same container anywhere in the function
+				type ins struct {
+					stmt ast.Stmt
+					top  bool
+				}
+				var insertions []ins
+				isInsertion := func(st ast.Node) bool {
+					found := false
+					ast.Inspect(st, func(k ast.Node) bool {
+						switch x := k.(type) {
+						case *ast.FuncLit:
+							return false
+						case *ast.AssignStmt:
+							for _, l := range x.Lhs {
+								if ix, ok := ast.Unparen(l).(*ast.IndexExpr); ok && ident(ix.X) == container {
+									found = true
+								}
+							}
+						case *ast.CallExpr:
+							if sel, ok := x.Fun.(*ast.SelectorExpr); ok && (sel.Sel.Name == "Set" || sel.Sel.Name == "Add") && ident(sel.X) == container {
+								found = true
+							}
+							if f := callee(info, x); f != nil {
+								if wf, ok := wrapper[f.Origin()]; ok && any(wf) == container {
+									found = true
+								}
+							}
+						}
+						return true
+					})
+					return found
+				}
+				ast.Inspect(node.decl.Body, func(k ast.Node) bool {
+					st, ok := k.(ast.Stmt)
+					if !ok || !isInsertion(st) {
+						return true
+					}
+					switch st.(type) {
+					case *ast.ExprStmt, *ast.AssignStmt:
+						insertions = append(insertions, ins{st, parents[k] == ast.Node(blk)})
+						return false
+					}
+					return true
+				})
+				if len(insertions) == 0 {
+					return true
+				}
+				// first call back into the component after the guard, in source order
+				firstRec := token.Pos(1 << 40)
+				for _, c := range node.calls {
+					if c.Pos() <= guard.End() {
+						continue
+					}
+					if f := callee(info, c); f != nil && member[f.Origin()] && c.Pos() < firstRec {
+						firstRec = c.Pos()
+					}
+					if node.closureRec[c] != nil && c.Pos() < firstRec {
+						firstRec = c.Pos()
+					}
+				}
+				if firstRec == token.Pos(1<<40) {
+					return true
+				}
+				n++
+				okP := false
+				for _, in := range insertions {
+					if in.top && in.stmt.Pos() > guard.End() && in.stmt.Pos() < firstRec {
+						okP = true
+					}
+				}
+				r.Check(okP, "flow/visited-before-descent", fmt.Sprintf("%s marks %s before descending", ctx.FuncName(fn), exprString(containerExpr)), guard.Pos(),
+					"the argument is recorded in the set, unconditionally, between the membership test and the first call back into the recursive component",
+					fmt.Sprintf("%s leaves when its argument is already in %s, but does not record it there unconditionally before calling back into its recursive component (the insertion is missing on some path, conditional, or comes after the recursive call): definitions that refer to themselves through the unrecorded shapes recurse until the stack overflows", ctx.FuncName(fn), exprString(containerExpr)))
+				return true
+			})
+		}
+	}
+	r.Count("visited-set protocols in recursive components", n)
+	r.Floor("visited-set protocols in recursive components", 3)
+}
+
+// c04Fixpoints: a `for` loop without condition whose only way out is "the value did not change in this iteration"
+// terminates only if the iterated transformation reaches a fixed point: snapshots of sizes of growing sets are
+// accepted (bounded by the finite universe they draw from); snapshots of strings or other unbounded values are not,
+// unless the loop also counts its iterations.
+func c04Fixpoints(ctx *Ctx, r *Report) {
+	n := 0
+	ctx.AllFuncDecls(func(p *packages.Package, fd *ast.FuncDecl, obj *types.Func) {
+		if fd.Body == nil {
+			return
+		}
+		info := p.TypesInfo
+		parents := parentMap(fd)
+		k := 0
+		ast.Inspect(fd.Body, func(m ast.Node) bool {
+			loop, ok := m.(*ast.ForStmt)
+			if !ok || loop.Cond != nil || loop.Init != nil || loop.Post != nil {
+				return true
+			}
+			// snapshots taken at the top of the body: `previous := x`
+			snap := map[types.Object]ast.Expr{}
+			for _, st := range loop.Body.List {
+				if as, ok := st.(*ast.AssignStmt); ok && as.Tok == token.DEFINE && len(as.Lhs) == 1 && len(as.Rhs) == 1 {
+					if id, ok := as.Lhs[0].(*ast.Ident); ok {
+						snap[info.Defs[id]] = as.Rhs[0]
+					}
+				}
+			}
+			// exits of the loop
+			var exits []ast.Node
+			ast.Inspect(loop.Body, func(q ast.Node) bool {
+				switch x := q.(type) {
+				case *ast.FuncLit:
+					return false
+				case *ast.ForStmt, *ast.RangeStmt, *ast.SwitchStmt, *ast.SelectStmt:
+					if q != ast.Node(loop.Body) {
+						// a break inside belongs to the inner statement; returns still leave
+						ast.Inspect(x, func(z ast.Node) bool {
+							if _, ok := z.(*ast.FuncLit); ok {
+								return false
+							}
+							if rs, ok := z.(*ast.ReturnStmt); ok {
+								exits = append(exits, rs)
+							}
+							return true
+						})
+						return false
+					}
+				case *ast.BranchStmt:
+					if x.Tok == token.BREAK {
+						exits = append(exits, x)
+					}
+				case *ast.ReturnStmt:
+					exits = append(exits, x)
+				}
+				return true
+			})
+			if len(exits) == 0 {
+				return true
+			}
+			fixpointOnly := true
+			unbounded := ""
+			for _, e := range exits {
+				isFix := false
+				for _, ce := range enclosingConds(parents, e) {
+					if ce.stmt.Pos() < loop.Pos() {
+						continue
+					}
+					be, ok := ast.Unparen(ce.stmt.Cond).(*ast.BinaryExpr)
+					if !ok || be.Op != token.EQL {
+						continue
+					}
+					for _, side := range []ast.Expr{be.X, be.Y} {
+						if id, ok := ast.Unparen(side).(*ast.Ident); ok {
+							if src, ok := snap[objOf(info, id)]; ok {
+								isFix = true
+								// what is snapshotted?
+								if t := info.TypeOf(src); t != nil {
+									if b, ok := t.Underlying().(*types.Basic); ok && b.Info()&types.IsInteger != 0 {
+										// a size (len / Len): bounded growth
+									} else {
+										unbounded = exprString(src)
+									}
+								}
+							}
+						}
+					}
+				}
+				if !isFix {
+					fixpointOnly = false
+				}
+			}
+			if !fixpointOnly {
+				return true
+			}
+			n++
+			k++
+			r.Check(unbounded == "", "flow/bounded-fixpoint", fmt.Sprintf("%s fixpoint loop #%d", ctx.FuncName(obj), k), loop.Pos(), "the loop iterates until a size stops growing: bounded by the finite set it draws from",
+				fmt.Sprintf("the loop only ends when %s is the same as before the iteration: nothing bounds the number of iterations, and a transformation that keeps changing the value (a parameter referring to itself) never reaches a fixed point — the run hangs", unbounded))
+			return true
+		})
+	})
+	r.Count("fixpoint loops", n)
 }
